@@ -44,6 +44,10 @@ MonStep(m, ev) ==
   LET m1 ==   \* clauses that hold for every event
         IF m.closeCalled /\ ev.e \notin {"CallClose"} /\ ev.st # "CLOSED" /\ ev.st # ""
         THEN Fail(m, "C14.left-CLOSED")
+        \* one notification per state change: between two notifications the state is the one notified last
+        \* (DISCONNECTED before the first); the notification itself is judged below
+        ELSE IF ev.e # "Status" /\ ev.st # "" /\ ev.st # (IF m.lastNote = "none" THEN "DISCONNECTED" ELSE m.lastNote)
+        THEN Fail(m, "C14.state-changed-without-notification")
         ELSE m
   IN
   CASE ev.e = "CallClose" -> IF m1.closeCalled THEN m1 ELSE [m1 EXCEPT !.closeCalled = TRUE, !.curAtClose = m1.cur]
